@@ -61,6 +61,19 @@ CLAIMED["C36"] = {
   "design_ref": "DESIGN.md section 4 C36",
 }
 
+CLAIMED["C12"] = {
+  "text": "Static decision that step() and forward() read nothing but the integration state: the live-in set of the ordered field-level effect trace (fields read or accumulated into with no earlier possible definition in the same call) contains only Model fields, State.INTEGRATION fields, tabled sticky diagnostics / make_data constants and, with sleeping enabled, the persistent sleep state; no scratch array is read before definition.",
+  "note": STATIC_NOTE + " May-define counts as a kill (under-reporting only).",
+  "technique": "interprocedural def-use (live-in) analysis over host effect traces with per-kernel read/write summaries (R-LIVE)",
+  "design_ref": "DESIGN.md section 4 C12, section 3 R-LIVE",
+}
+CLAIMED["C37"] = {
+  "text": "Static decision that for Euler/implicitfast/implicit x sleeping on/off the resolved operation sequence of step() equals step1();step2() modulo the tabled factor/solve equivalence (same contributions to the inertia matrix before factorisation, nothing modifies it before the solve), that forward() writes no integration-state field and reads no non-state field that it also writes.",
+  "note": STATIC_NOTE,
+  "technique": "comparison of configuration-specialised host effect traces + write-set / live-in sets (R-SEQ, R-PURE)",
+  "design_ref": "DESIGN.md section 4 C37",
+}
+
 NOT_APPLICABLE = {
   "C06": "optimality of an iterative float solve is a runtime quantity; no structural necessary condition beyond what C24/C25 decide",
   "C18": "equivalence of broadphases depends on geometric conservativeness of numeric filters and sort/scan arithmetic; a sibling text-diff of the NXN/SAP kernels would alarm on harmless refactors",
